@@ -632,6 +632,14 @@ def check_out_stream(viol, R, txns, taken, mps, buffer_size, consumer, *, base=N
             continue
         d = parse_data(x["wire"])
         resp = x["resp"]
+        if d is not None and d[0] not in DATA01:
+            # A *well-formed* DATA2 / MDATA packet (valid PID check, valid CRC16).  A bulk host never sends one; it only
+            # arises here when a corruption flips a complementary pair of PID bits (k, k+4), which is not a detectable
+            # (CRC / PID-check) corruption at all.  The statement says nothing about such packets, so both conforming
+            # reactions are accepted: ignore it (no handshake, contributes nothing), or handle it as the DATA0 / DATA1
+            # packet whose toggle bit (PID bit 3) it carries.  Everything else is then judged as usual.
+            summ["wellformed_data2_mdata"] = summ.get("wellformed_data2_mdata", 0) + 1
+            d = None if resp is None else ("DATA1" if d[0] == "MDATA" else "DATA0", d[1])
         valid = d is not None and d[0] in DATA01
         shape = dict(base, resp=str(resp), fault=str(x.get("fault")), prev=prev_kind)
         if not valid:
